@@ -71,6 +71,13 @@ func truncate(s *slip.Scope, f slip.Object, args slip.List, depth int) slip.Valu
 	checkDivisor(s, depth, f, args, div)
 	switch tn := num.(type) {
 	case slip.Fixnum:
+		if tn == math.MinInt64 && div.(slip.Fixnum) == -1 {
+			// The one quotient of fixnums that is not a fixnum.
+			var z big.Int
+			q = (*slip.Bignum)(z.Neg(big.NewInt(int64(tn))))
+			r = slip.Fixnum(0)
+			break
+		}
 		q = tn / div.(slip.Fixnum)
 		r = tn - q.(slip.Fixnum)*div.(slip.Fixnum)
 	case slip.SingleFloat:
